@@ -30,19 +30,21 @@ PROPS = {
                      rapid("TestC11", 400, 2000, name="TestC11(siblings)"),
                      # attribution when a probe's identifier is touched by the zero-checksum handling (1 probe in 65 536):
                      # the search job of C06, whose every hop is also judged against the reference
-                     enum("TestC06UDP6ChecksumSearch", name="TestC06UDP6ChecksumSearch(attribution)")]},
-    "C02": {"jobs": [rapid("TestC02", 1500, 15000), enum("TestC02Product")]},
-    "C03": {"jobs": [rapid("TestC03Protocol", 1500, 10000), rapid("TestC03Engine", 8000, 60000), rapid("TestC03OutOfRange", 3000, 20000), enum("TestC03AllPairs")]},
-    "C04": {"jobs": [rapid("TestC04", 1500, 10000), rapid("TestC04Reuse", 800, 6000)]},
+                     enum("TestC06UDP6ChecksumSearch", name="TestC06UDP6ChecksumSearch(attribution)"),
+                     # what the real capture handle hands to the parsers: exactly the frame that arrived
+                     enum("TestC01KernelReadExact")]},
+    "C02": {"jobs": [rapid("TestC02", 1500, 15000), enum("TestC02Product"), enum("TestC02KernelLinkHeaders")]},
+    "C03": {"jobs": [rapid("TestC03Protocol", 1500, 10000), rapid("TestC03Engine", 8000, 60000), rapid("TestC03OutOfRange", 3000, 20000), enum("TestC03AllPairs"), rapid("TestC03Request", 800, 5000)]},
+    "C04": {"jobs": [rapid("TestC04", 1500, 10000), rapid("TestC04Reuse", 800, 6000), enum("TestC04KernelPaddedReplies")]},
     "C05": {"jobs": [rapid("TestC05", 1500, 15000), rapid("TestC05E2e", 1200, 8000), rapid("TestC05RealTimeStall", 12, 40, shards_thorough=4)]},
-    "C07": {"jobs": [rapid("TestC07", 8000, 60000), enum("TestC07Bounded")]},
-    "C08": {"jobs": [rapid("TestC08Runs", 800, 5000), rapid("TestC08Engines", 3000, 20000), rapid("TestC08Services", 2000, 10000), rapid("TestC08Request", 1500, 6000), enum("TestC08SharedFetcherRealTime")]},
-    "C09": {"jobs": [rapid("TestC09", 3000, 10000), enum("TestC09Truncations"), enum("TestC09TCPOptions")] +
+    "C07": {"jobs": [rapid("TestC07", 8000, 60000), enum("TestC07Bounded"), enum("TestC07KernelBurst")]},
+    "C08": {"jobs": [rapid("TestC08Runs", 800, 5000), rapid("TestC08Engines", 3000, 20000), rapid("TestC08Services", 2000, 10000), rapid("TestC08Request", 1500, 6000), enum("TestC08SharedFetcherRealTime"), enum("TestC08KernelSendError")]},
+    "C09": {"jobs": [rapid("TestC09", 3000, 10000), enum("TestC09Truncations"), enum("TestC09TCPOptions"), enum("TestC09KernelFrames")] +
             [fuzz("FuzzC09" + v) for v in ("icmp4", "icmp6", "udp4", "udp6", "tcp", "tcpparis", "sack", "Parser")]},
     "C10": {"jobs": [enum("TestC10Single"), enum("TestC10Paths"), enum("TestC10LateWrite"), enum("TestC10Request"), rapid("TestC10Multi", 2500, 8000),
                      # "the k-th send fails" below the seam: the kernel itself refuses one probe of a real run
-                     enum("TestC10KernelSendError")]},
-    "C06": {"jobs": [rapid("TestC06", 1200, 8000), rapid("TestC06Engine", 4000, 30000), enum("TestC06Reuse"), enum("TestC06AllTTLs"), enum("TestC06UDP6ChecksumSearch"), rapid("TestC06Concurrent", 600, 4000)]},
+                     enum("TestC10KernelSendError"), enum("TestC10KernelFilterNoMem")]},
+    "C06": {"jobs": [rapid("TestC06", 1200, 8000), rapid("TestC06Engine", 4000, 30000), enum("TestC06Reuse"), enum("TestC06AllTTLs"), enum("TestC06UDP6ChecksumSearch"), rapid("TestC06Concurrent", 600, 4000), enum("TestC06KernelSink")]},
     "C20": {"jobs": [enum("TestC20Table"), rapid("TestC20", 2000, 2000), enum("TestC20ConnectTimeout")]},
     "C11": {"jobs": [rapid("TestC11", 800, 4000), rapid("TestC11Request", 800, 3000), rapid("TestC11Alloc", 500, 3000), enum("TestC11EchoIDs"), enum("TestC11EchoIDsConcurrent"), enum("TestC11AllocWrap")]},
     "C12": {"jobs": [enum("TestC12Classes"),
@@ -65,5 +67,5 @@ PROPS = {
     "C16": {"jobs": [rapid("TestC16", 20000, 120000), enum("TestC16ConcurrentIDs")]},
     "C17": {"jobs": [rapid("TestC17Docs", 10000, 60000), rapid("TestC17Request", 1000, 4000)]},
     "C18": {"jobs": [rapid("TestC18Enrich", 5000, 30000), rapid("TestC18Cache", 4000, 30000), rapid("TestC18Providers", 4000, 20000)]},
-    "C19": {"jobs": [rapid("TestC19", 3000, 8000), enum("TestC19Extremes"), enum("TestC19Spellings")]},
+    "C19": {"jobs": [rapid("TestC19", 3000, 8000), enum("TestC19Extremes"), enum("TestC19Spellings"), enum("TestC19Defaults")]},
 }
